@@ -688,7 +688,7 @@ def _pairs(ps):
     return out
 
 
-def to_lines(db, name="db"):
+def to_lines(db, name="db", drop_constants=False):
     """lines for `pmodel speciate`:
        db <name>
        named <lower-name> <logK> <dH> <unit 0..3> <A1..A6> <n> (<name> <coef>)*
@@ -697,16 +697,21 @@ def to_lines(db, name="db"):
        phase <name> <logK> <dH> <unit> <A1..A6> <n> (<species> <coef>)* <n> (<named> <coef>)*
        enddb                       (all numbers are 16 hex digits of the IEEE double)"""
     out = [f"db {name}"]
+
+    def adds(obj):
+        if drop_constants:          # variant "every -add_constant line absent"
+            return [(n, c) for n, c in obj.add_logk if n != "XconstantX"]
+        return obj.add_logk
     for k in sorted(db.named):
         nd = db.named[k]
         out.append(" ".join(["named", k] + _logk_fields(nd.logk) + _pairs(nd.add_logk)))
     for m in db.masters:
         out.append(f"master {m.element} {m.species} {hexd(m.alk)} {1 if m.primary else 0}")
     for nm, sp in db.species.items():
-        out.append(" ".join(["species", nm, hexd(sp.z)] + _logk_fields(sp.logk) + _pairs(sp.rxn) + _pairs(sp.add_logk)
+        out.append(" ".join(["species", nm, hexd(sp.z)] + _logk_fields(sp.logk) + _pairs(sp.rxn) + _pairs(adds(sp))
                             + _pairs(sorted(sp.elements.items()))))
     for nm, ph in db.phases.items():
-        out.append(" ".join(["phase", nm] + _logk_fields(ph.logk) + _pairs(ph.rxn) + _pairs(ph.add_logk)))
+        out.append(" ".join(["phase", nm] + _logk_fields(ph.logk) + _pairs(ph.rxn) + _pairs(adds(ph))))
     out.append("enddb")
     return out
 
